@@ -4,6 +4,7 @@ import (
 	"encoding/json"
 	"fmt"
 	"os"
+	"sort"
 	"strings"
 	"time"
 
@@ -80,6 +81,13 @@ func VReplayStore(task engine.SeqTask) (res engine.SeqResult) {
 		snaps = append(snaps, chk.snapshotAt(p.IDs, scopes, 0, true))
 		snaps[0].Commit = 0
 	}
+	// a paged current-state relationship query a client has started and not finished yet (ops qstart / qcont)
+	var pq struct {
+		cont  []*RelatedFrom
+		got   map[string]int
+		want  map[string]bool
+		label string
+	}
 	for i, raw := range task.Hist {
 		var op VOp
 		if err := json.Unmarshal(raw, &op); err != nil {
@@ -116,6 +124,68 @@ func VReplayStore(task engine.SeqTask) (res engine.SeqResult) {
 				res.HarnessEr = err.Error()
 				return
 			}
+		case "qstart":
+			// the first page (limit 1) of a relationship query on e1 through the current-state entry point
+			// (GetManyRelatedEntitiesBatch, what POST /query uses); LO = inverse. The client keeps the continuation.
+			pred := "*"
+			if op.LO {
+				pred = h.KeyURI("p")
+			}
+			r1, err := w.Store.GetManyRelatedEntitiesBatch([]string{h.URI("e1")}, pred, op.LO, nil, 1, true)
+			if err != nil || len(r1.Cont) == 0 {
+				res.Skip, res.Key = true, "skip" // nothing to continue
+				return
+			}
+			pq.cont, pq.label = r1.Cont, fmt.Sprintf("e1/%s/inverse=%v started after operation %d", map[bool]string{false: "*", true: "p"}[op.LO], op.LO, i)
+			pq.got, _ = h.relSet(r1.Relations)
+			pq.want = map[string]bool{}
+			for e := range h.M.Graph(nil, -1) {
+				if !op.LO && e.Src == "e1" {
+					pq.want[e.Pred+">"+e.Dst] = true
+				}
+				if op.LO && e.Dst == "e1" && e.Pred == "p" {
+					pq.want[e.Pred+">"+e.Src] = true
+				}
+			}
+		case "qcont":
+			// the client fetches the remaining pages: the query is still the one it started (its instant is pinned)
+			if pq.cont == nil {
+				res.Skip, res.Key = true, "skip"
+				return
+			}
+			for n := 0; pq.cont != nil && n < 50; n++ {
+				r2, err := w.Store.GetManyRelatedEntitiesAtTime(pq.cont, 1, true)
+				if err != nil {
+					chk.fail("C06:continued-query-error", "continuing a paged query failed: "+err.Error(), nil)
+					break
+				}
+				g, _ := h.relSet(r2.Relations)
+				for k, c := range g {
+					pq.got[k] += c
+				}
+				pq.cont = r2.Cont
+				if len(r2.Cont) == 0 {
+					pq.cont = nil
+				}
+			}
+			if last {
+				chk.Checks++
+				same := len(pq.got) == len(pq.want)
+				for k, c := range pq.got {
+					if !pq.want[k] || c != 1 {
+						same = false
+					}
+				}
+				if !same {
+					var gl []string
+					for k, c := range pq.got {
+						gl = append(gl, fmt.Sprintf("%s x%d", k, c))
+					}
+					sort.Strings(gl)
+					chk.fail("C06:continued-current-state-query", fmt.Sprintf("a paged relationship query (%s, limit 1) continued after later writes returned %v in total; when it was started the graph gave %v", pq.label, gl, setKeys(pq.want)), nil)
+				}
+			}
+			pq.got, pq.want = nil, nil
 		case "read":
 			r := readers[op.R]
 			if r == nil {
@@ -166,6 +236,14 @@ func VReplayStore(task engine.SeqTask) (res engine.SeqResult) {
 			}
 			extra += fmt.Sprintf("%s@%s:%d:%v;", n, r.DS, idx, r.LO)
 		}
+	}
+	if pq.cont != nil {
+		var gl []string
+		for k := range pq.got {
+			gl = append(gl, k)
+		}
+		sort.Strings(gl)
+		extra += fmt.Sprintf("|pending-query:%s:got=%v:want=%v", pq.label[:strings.Index(pq.label, " ")], gl, setKeys(pq.want))
 	}
 	res.Key = h.Canon(append(append([]string{}, p.IDs...), "e4"), p.Datasets, extra)
 	if n := len(task.Hist); n > 0 {
